@@ -7,6 +7,12 @@ CHECKS = {
         "text": "Bounded symbolic verification: the real gate-block builders and the real Gaussian update rules are executed on symbolic complex scalars; for every gate, every ordered mode subset on d<=3 (thorough: d<=4) and a fully generic input state, z3 decides that the output equals the documented symplectic congruence for ALL real gate parameters and all hbar>0 (trig/hyperbolic values are algebraic atoms). This is the level the property asks for ('for all real parameters, established symbolically'); the bound is the number of modes and the sequence length (2).",
         "note": "Trusted: z3/cvc5, the numpy facade (validated each run at random points against real numpy), CPython. Reals stand in for floats (rounding is outside the claim). Outside: d>4, sequences longer than 2 gates, user-supplied matrices beyond generic (P,A) with k<=2 under the symplectic side condition.",
     },
+    "C14": {
+        "engine": "E-XA",
+        "technique": "symbolic execution of GaussianState's getters/setters/observables over z3 reals with symbolic hbar + SMT decision (nlsat / nla-Groebner / cvc5); counterexamples replayed on the float code",
+        "text": "Bounded symbolic verification: for a fully generic ladder-moment state (m, C=C^+, G=G^T) on d<=2 (thorough d<=3) modes and symbolic hbar>0, z3 decides that setters and getters are mutually inverse in both orderings, that the complex representation is the documented W-transform, that reduction/rotation commute with the representation maps for every ordered mode subset and every angle, that means scale with sqrt(hbar) and covariances with hbar, and that every dimensionless observable (purity, photon-number mean/variance, parity, xp/ladder string moments, quadratic polynomials, the arguments handed to the threshold kernel, the (A,b,c) triple of the density-matrix calculation) equals its value at hbar=2. 'All hbar' needs a symbolic hbar; tests run at hbar=2 only.",
+        "note": "Trusted: z3/cvc5, numpy facade (validated per run on physical random states), CPython. Config(validate=False) in the harness (LAPACK eigenvalue validators are outside). Outside: fidelity (eigvals), Wigner function, torontonian/hafnian kernels themselves, d>3, float rounding.",
+    },
 }
 NOT_APPLICABLE = {p: NB for p in ["C%02d" % i for i in range(1, 21)] if p not in CHECKS}
 NOT_APPLICABLE["C09"] = ("needs TensorFlow/JAX/XLA execution (tf.function, jax.jit, tf.linalg, XLA FFI); none of it can run on symbolic values and no "
